@@ -28,7 +28,7 @@ func init() {
 		},
 	}
 	Props["C14"] = PropDef{
-		Explanation: "T-REGIDX index orientation and slot offsets; R-ORDER dominance / must-follow on an inlined view (refusal, header and occupancy mirroring, Load and table loops, free-space search); R-TLG; R-TRUNC signed narrowing; R-ERRFLOW; T-REGIDX slot offsets of every header-slot writer; T-REGIDX single-clock (file and memory time stamp from one clock reading). Decided: Index orientation agrees with the file layout and both header slots are written at their offsets; the over-limit refusal dominates all mutation and bounds the packed sector count; header and occupancy stay mirrored; Load and table loops cover every entry; location fields are not sign-extended. The time stamp on disk and the one in memory come from one clock reading. Disjointness over histories is not decided.",
+		Explanation: "T-REGIDX index orientation and slot offsets; R-ORDER dominance / must-follow on an inlined view (refusal, header and occupancy mirroring, Load and table loops, free-space search); R-TLG; R-TRUNC signed narrowing; R-ERRFLOW; T-REGIDX slot offsets of every header-slot writer; T-REGIDX single-clock (file and memory time stamp from one clock reading); T-REGIDX stamp-mirrored. Decided: Index orientation agrees with the file layout and both header slots are written at their offsets; the over-limit refusal dominates all mutation and bounds the packed sector count; header and occupancy stay mirrored; Load and table loops cover every entry; location fields are not sign-extended. The time stamp on disk and the one in memory come from one clock reading. Disjointness over histories is not decided.",
 		Run: func(c *Ctx) []core.Ob {
 			obs := c.RegionIndex()
 			obs = append(obs, c.RegionOrder()...)
@@ -58,7 +58,7 @@ func init() {
 		},
 	}
 	Props["C16"] = PropDef{
-		Explanation: "T-RCONFRAME / T-ENDIAN table agreement incl. writer-side limit; R-TLG bounds; R-POLARITY; R-ORIGIN request id; R-RAWREAD; R-NOBUF. Decided: Writer length constants = reader minimum / offsets / trailer, a writer-side limit is on the declared length, little-endian both sides, declared length proven in range, the body is read in full, login success only on the password-equal edge, responses under the current id.",
+		Explanation: "T-RCONFRAME / T-ENDIAN table agreement incl. writer-side limit; R-TLG bounds; R-POLARITY; R-ORIGIN request id; R-RAWREAD; R-NOBUF; R-ORIGIN rcon-verbatim; R-RAWREAD ReadAtLeast asks for exactly its buffer. Decided: Writer length constants = reader minimum / offsets / trailer, a writer-side limit is on the declared length, little-endian both sides, declared length proven in range, the body is read in full, login success only on the password-equal edge, responses under the current id.",
 		Run: func(c *Ctx) []core.Ob {
 			obs := c.RCONFrame()
 			obs = append(obs, c.RCONPolarity()...)
